@@ -91,7 +91,9 @@ def _clear_member_fingerprints(target):
 
 
 def facts_dir(config="all", repo=None, quiet=False):
-    """Return the directory holding fresh facts for the repo's current tree."""
+    """Return the directory holding fresh facts for the repo's current tree. VERIF_CONFIG overrides
+    the build configuration (used by the thorough tier's second pass over the default features)."""
+    config = os.environ.get("VERIF_CONFIG") or config
     repo = repo or REPO
     os.makedirs(CACHE, exist_ok=True)
     if not os.path.exists(ZFACTS_BIN):
